@@ -41,6 +41,7 @@ type Ctx struct {
 	fnByKey    map[string]*ssa.Function
 	ifaceCache map[string]*types.Interface
 	wireTaint  map[ssa.Value]bool // values derived from a received heads list (set by T1)
+	lenCacheMemo map[*types.Var]bool
 	lockMemo   *lockMemo
 	replMemo   *replImpl
 	allFnsMemo map[*ssa.Function]bool
